@@ -217,7 +217,7 @@ func (f *Factory) Build(r BlockReq) *types.Block {
 		panic(err)
 	}
 	if r.Mutate == nil || b.TransactionsMerkleRoot.IsZero() {
-		b.TransactionsMerkleRoot = root
+		b.TransactionsMerkleRoot = root // a mutation may have planted a wrong root on purpose
 	}
 	key := r.SignKey
 	if key == nil {
